@@ -30,7 +30,7 @@ HANDLES = ['filename', 'connection', 'cursor', 'mkcurs']
 EXCS = sorted(probes.FAULT_TYPES)
 REQUIRED = (['handle:' + h for h in HANDLES] + ['fn:todb', 'fn:appenddb', 'commit:True', 'commit:False', 'fail:none', 'fail:header',
             'fail:first-row', 'fail:last-row', 'fail:exhaustion', 'rolled-back-load-left-previous-contents', 'commit=False-invisible-until-caller-commits',
-            'long-load', 'roundtrip-typed-cells', 'quoted-identifiers', 'sql-statements-traced', 'schema-qualified', 'fromdb-handle-kinds'] + ['exc:' + e for e in EXCS])
+            'long-load', 'source-read-through-the-same-connection', 'pending-load-read-back-through-the-same-connection', 'roundtrip-typed-cells', 'quoted-identifiers', 'sql-statements-traced', 'schema-qualified', 'fromdb-handle-kinds'] + ['exc:' + e for e in EXCS])
 EXHAUSTIVE = {'quick': False, 'thorough': False}   # the enumerated families are complete within their bounds, but a seeded random family is judged too
 
 CELLS = [None, 0, 1, -5, 2 ** 40, 1.5, -0.25, '', 'a', "it's", 'say "hi"', 'é€漢', 'x;y', b'', b'\x00\xff', 'NULL', ' lead']
@@ -58,6 +58,15 @@ def cases(ctx):
                     count[0] += 1
                     yield {'fn': fn, 'handle': handle, 'commit': True, 'prior': 2, 'new': n, 'fail': fail, 'flavour': 'plain',
                            'exc': EXCS[count[0] % len(EXCS)] if fail is not None else None, 'schema': None}
+    # the rows to load come out of the same database through the same connection (fromdb on the handle that todb / appenddb
+    # writes through): reading the source must not disturb the pending load
+    for fn in ('todb', 'appenddb'):
+        for handle in [h for h in HANDLES if h != 'filename']:
+            for commit in (True, False):
+                for p in (0, 2):
+                    for n in (0, 1, 3):
+                        yield {'fn': fn, 'handle': handle, 'commit': commit, 'prior': p, 'new': n, 'fail': None, 'flavour': 'plain', 'exc': None,
+                               'schema': None, 'via_fromdb': True}
     rng = ctx.rng('flavours')
     for i in range(ctx.pick(1500, 20000)):
         n = rng.randint(0, 4)
@@ -124,6 +133,9 @@ def judge(case, ctx):
     setup = sqlite3.connect(path)
     setup.execute('CREATE TABLE %s (%s)' % (_q(tbl), ', '.join(_q(f) for f in fields)))
     setup.executemany('INSERT INTO %s VALUES (?, ?)' % _q(tbl), prior)
+    if case.get('via_fromdb'):
+        setup.execute('CREATE TABLE "src" (%s)' % ', '.join(_q(f) for f in fields))
+        setup.executemany('INSERT INTO "src" VALUES (?, ?)', new)
     setup.commit()
     setup.close()
     # schema-qualified loads: a second database file is ATTACHed as "aux" and holds a table of the same name; the load
@@ -166,6 +178,9 @@ def judge(case, ctx):
                 dbo = conn.cursor()
             else:
                 dbo = lambda: conn.cursor()  # noqa: E731
+        if case.get('via_fromdb') and conn is not None:
+            source = petl.fromdb(conn, 'SELECT * FROM "src" ORDER BY rowid')
+            ctx.seen('source-read-through-the-same-connection')
         mark = len(trace.log)
         raised = None
         try:
@@ -208,6 +223,15 @@ def judge(case, ctx):
             if first_load is not None and any(s.upper().startswith('COMMIT') for s in stmts[first_load:]):
                 out.append({'kind': 'commit-after-load-statements-of-a-failing-load', 'statements': stmts})
         # ---- commit=False on the caller's connection: invisible until the caller commits, complete afterwards
+        if fail is None and not commit and conn is not None and not out:
+            # ... and visible, pass after pass, to a fromdb on that same connection (reading does not end the caller's transaction)
+            for p_ in (1, 2):
+                own = util.attempt_rows(lambda: petl.fromdb(conn, 'SELECT * FROM %s%s' % ((_q(schema) + '.') if schema else '', _q(tbl))))
+                if isinstance(own, util.Raised) or util.crows(own[1:]) != util.crows(loaded):
+                    out.append({'kind': 'own-connection-does-not-see-its-pending-load', 'pass': p_, 'expected': loaded,
+                                'observed': own if not isinstance(own, util.Raised) else own.text})
+                    break
+            ctx.seen('pending-load-read-back-through-the-same-connection')
         if fail is None and not commit and conn is not None and not out:
             conn.commit()
             seen2 = _fresh_select(aux_path if schema else path, tbl)
